@@ -29,20 +29,19 @@ class TrioRunner(BaseRunner):
 
     def register_payload(self, payload: Callable[[], Awaitable]):
         assert self._trio_token is not None and self._submit_tasks is not None
+        # Hand the payload over without waiting for the trio thread: a blocking call
+        # from the asyncio thread deadlocks if a trio payload is in turn waiting for
+        # the asyncio thread. This is also safe from inside the trio thread itself.
         try:
-            trio.from_thread.run(
-                self._submit_tasks.send, payload, trio_token=self._trio_token
-            )
-        except (trio.RunFinishedError, trio.Cancelled, trio.ClosedResourceError):
+            self._trio_token.run_sync_soon(self._submit_payload, payload)
+        except trio.RunFinishedError:
             self._logger.warning(f"discarding payload {payload} during shutdown")
-            return
-        except RuntimeError:
-            # trio raises a bare RuntimeError when we are already in the trio thread
-            # just submit the task directly
-            try:
-                self._submit_tasks.send_nowait(payload)
-            except trio.ClosedResourceError:
-                self._logger.warning(f"discarding payload {payload} during shutdown")
+
+    def _submit_payload(self, payload: Callable[[], Awaitable]):
+        try:
+            self._submit_tasks.send_nowait(payload)
+        except trio.ClosedResourceError:
+            self._logger.warning(f"discarding payload {payload} during shutdown")
 
     def run_payload(self, payload: Callable[[], Coroutine]):
         assert self._trio_token is not None and self._submit_tasks is not None
